@@ -130,6 +130,7 @@ def apply(spec, tg, n, core=False):
         _res(spec, "r4")["hours"] = [("mon - fri", ["9:00 - 17:00"])]
     elif tg == "hours":
         _res(spec, "r1")["hours"] = [("mon - thu", ["8:00 - 12:00", "13:00 - 15:00"])]
+        _res(spec, "r2")["hours"] = [("mon - fri", ["16:00 - 0:00"])]   # ends exactly ON midnight: nothing of it belongs to the next day
     elif tg == "long":
         _task(spec, "F")["effort"] = 4800
     elif tg == "r5":
